@@ -151,6 +151,9 @@ def run(tier, seed):
     scale = scale_programs()
     for n, src, _ in scale:
         texts.append(("scale:" + n, src))
+    # compile-only scale programs (they cannot run: the modules do not exist): many import items, with the value used
+    for n in (2, 100, 127, 128, 129, 200):
+        texts.append(("scale:imports%d" % n, "x = from some_module import %s\nx\n" % ", ".join("i%d" % i for i in range(n))))
     jobs = [{"id": n, "src": s} for n, s in texts]
     res = common.kv_parallel("chunk", jobs, per_job_timeout=60)
     # determinism: compile everything again, in other processes and in another order
